@@ -421,3 +421,92 @@ theorem subPaths_last (x : Str) (c : Char) (hslash : isSeg '/' = false) :
     simp [renderToks, flush, chainText]
 
 end Pyxv.Validator
+
+namespace Pyxv.Validator
+
+/-! ## blanks around the text: `strip` commutes with the substitution -/
+
+/-- the code points `str.strip()` removes -/
+def spaceNats : List Nat :=
+  [9, 10, 11, 12, 13, 28, 29, 30, 31, 32, 0x85, 0xA0, 0x1680, 0x2000, 0x2001, 0x2002, 0x2003, 0x2004, 0x2005, 0x2006,
+   0x2007, 0x2008, 0x2009, 0x200A, 0x2028, 0x2029, 0x202F, 0x205F, 0x3000]
+
+theorem space_mem (c : Char) (h : pyIsSpace c = true) : c.toNat ∈ spaceNats := by
+  simp only [pyIsSpace, Bool.or_eq_true, Bool.and_eq_true, decide_eq_true_eq, beq_iff_eq] at h
+  simp only [spaceNats, List.mem_cons, List.not_mem_nil, or_false]
+  omega
+
+/-- table fact: no blank is a path-segment character of ERROR_MESSAGE_REGEX -/
+theorem spaces_not_seg_table :
+    spaceNats.all (fun n => !(Gen.c18SegRanges.any (fun r => r.1 ≤ n && n ≤ r.2))) = true := by decide +kernel
+
+theorem space_not_seg (c : Char) (h : pyIsSpace c = true) : isSeg c = false := by
+  have hm := space_mem c h
+  have ht := spaces_not_seg_table
+  rw [List.all_eq_true] at ht
+  have := ht c.toNat hm
+  simpa [isSeg] using this
+
+theorem space_delim (c : Char) (h : pyIsSpace c = true) : isDelim c = true := by
+  have hs := space_not_seg c h
+  have hne : c ≠ '/' := by
+    intro e; rw [e] at h; exact absurd h (by decide)
+  simp [isDelim, hs, hne]
+
+theorem subPaths_blank_prefix (ws s : Str) (h : ∀ c ∈ ws, pyIsSpace c = true) : subPaths (ws ++ s) = ws ++ subPaths s := by
+  induction ws with
+  | nil => rfl
+  | cons c cs ih =>
+    have hc := space_delim c (h c (by simp))
+    simp only [List.cons_append]
+    rw [subPaths_delim_cons c _ hc, ih (fun x hx => h x (by simp [hx]))]
+
+theorem subPaths_blank (ws : Str) (h : ∀ c ∈ ws, pyIsSpace c = true) : subPaths ws = ws := by
+  have := subPaths_blank_prefix ws [] h
+  simpa [subPaths_nil] using this
+
+theorem subPaths_blank_suffix (s ws : Str) (h : ∀ c ∈ ws, pyIsSpace c = true) : subPaths (s ++ ws) = subPaths s ++ ws := by
+  cases ws with
+  | nil => simp
+  | cons c cs =>
+    rw [subPaths_split s cs c (space_delim c (h c (by simp))), subPaths_blank cs (fun x hx => h x (by simp [hx]))]
+
+/-- blanks around a text stay where they are -/
+theorem subPaths_pad (ws1 s ws2 : Str) (h1 : ∀ c ∈ ws1, pyIsSpace c = true) (h2 : ∀ c ∈ ws2, pyIsSpace c = true) :
+    subPaths (ws1 ++ s ++ ws2) = ws1 ++ subPaths s ++ ws2 := by
+  rw [List.append_assoc, subPaths_blank_prefix ws1 _ h1, subPaths_blank_suffix s ws2 h2, List.append_assoc]
+
+theorem lstrip_blank_prefix (ws s : Str) (h : ∀ c ∈ ws, pyIsSpace c = true) : lstrip (ws ++ s) = lstrip s := by
+  induction ws with
+  | nil => rfl
+  | cons c cs ih =>
+    have hc := h c (by simp)
+    have := ih (fun x hx => h x (by simp [hx]))
+    simp only [lstrip, List.cons_append, List.dropWhile, hc] at this ⊢
+    exact this
+
+theorem rstrip_blank_suffix (s ws : Str) (h : ∀ c ∈ ws, pyIsSpace c = true) : rstrip (s ++ ws) = rstrip s := by
+  have h' : ∀ c ∈ ws.reverse, pyIsSpace c = true := by
+    intro c hc; exact h c (by simpa using hc)
+  have := lstrip_blank_prefix ws.reverse s.reverse h'
+  simp only [lstrip] at this
+  simp only [rstrip, List.reverse_append, this]
+
+/-- `strip` of a blank-padded text whose core starts and ends with a non-blank character is the core -/
+theorem strip_pad (ws1 b ws2 : Str) (c d : Char) (r x : Str) (h1 : ∀ c ∈ ws1, pyIsSpace c = true)
+    (h2 : ∀ c ∈ ws2, pyIsSpace c = true) (hb1 : b = c :: r) (hb2 : b = x ++ [d])
+    (hc : pyIsSpace c = false) (hd : pyIsSpace d = false) : strip (ws1 ++ b ++ ws2) = b := by
+  unfold strip
+  rw [List.append_assoc, lstrip_blank_prefix ws1 _ h1]
+  have : lstrip (b ++ ws2) = b ++ ws2 := by
+    rw [hb1]; exact lstrip_id c (r ++ ws2) hc
+  rw [this, rstrip_blank_suffix b ws2 h2, hb2, rstrip_id x d hd]
+
+theorem strip_blank (ws : Str) (h : ∀ c ∈ ws, pyIsSpace c = true) : strip ws = [] := by
+  have := lstrip_blank_prefix ws [] h
+  simp only [List.append_nil] at this
+  have h0 : lstrip ([] : Str) = [] := rfl
+  rw [strip, this, h0]
+  rfl
+
+end Pyxv.Validator
